@@ -772,6 +772,26 @@ pub fn step(st: &mut DualState, t: &[&str]) -> Option<String> {
                 "panic",
             )
         }
+        ["tonum", i] => {
+            // `Number::from` of the contained value, owned and borrowed: the container around exactly that value
+            let a = st.vals.get(&i.parse().ok()?)?.clone();
+            guarded(
+                || {
+                    let (x, y) = match &a {
+                        Number::F64(f) => (Number::from(*f), Number::from(f)),
+                        Number::Dual(d) => (Number::from(d.clone()), Number::from(d)),
+                        Number::Dual2(d) => (Number::from(d.clone()), Number::from(d)),
+                    };
+                    let (s1, s2) = (fmt_num(&x), fmt_num(&y));
+                    if s1 == s2 {
+                        s1
+                    } else {
+                        "From variants differ".to_string()
+                    }
+                },
+                "panic",
+            )
+        }
         ["conv", i, to] => {
             let a = st.vals.get(&i.parse().ok()?)?;
             guarded(
@@ -1086,6 +1106,7 @@ pub fn gen_c18<W: Write>(out: &mut W, thorough: bool, seed: u64) {
             for to in ["f", "d", "D"] {
                 writeln!(out, "conv {} {}", i, to).unwrap();
             }
+            writeln!(out, "tonum {}", i).unwrap();
             writeln!(out, "powc {} {}", i, hf(2.0)).unwrap();
             writeln!(out, "npowc {} {}", i, hf(2.0)).unwrap();
             writeln!(out, "npowc {} {}", i, hf(3.0)).unwrap();
